@@ -375,6 +375,21 @@ func finish(t *testing.T, p *PropSpec, reports []*mc.Report, errs []string, wall
 			other = append(other, v)
 		}
 	}
+	if exp := os.Getenv("VERIF_PROP_EXPORT"); exp != "" {
+		// this exploration runs as a sub-check of another property's check: hand over what was found, write no evidence
+		st, tr := 0, 0
+		for _, r := range reports {
+			if r != nil {
+				st += r.States
+				tr += r.Executions
+			}
+		}
+		b, _ := json.Marshal(map[string]any{"violations": all, "states": st, "executions": tr, "internal": internal})
+		if err := os.WriteFile(exp, b, 0o644); err != nil {
+			t.Fatal(err)
+		}
+		return
+	}
 	newV, knownV := mc.Filter(mine, mc.LoadFindings())
 	var missing []string
 	for _, need := range p.NeedOutcomes {
